@@ -118,11 +118,20 @@ export const ODD_FORMS = [
   'x = <C>{x}</C>;', 'let x; x = 1; x = <C>{x}{x}</C>;', 'a = b = <C>{a}</C>;', '({ a } = { a: <C>{a}</C> });', 'a += <C>{a}</C>;',
   '<div v-show />', '<div v-show="s" />', '<div vShow={[x, "arg", ["m"]]} />', '<div v-foo:arg_a_b={[x, "other", ["c"]]} />',
   '<div v-drag_snap-to-grid={h} />', '<input v-model_lazy-trim={x} />', '<div v-track__once={h} />', '<div v-track_2x={h} />', '<div vTrack_2x />', '<A v-track_a-b_c={h} />', '<textarea v-model_1={x} />', '<div v-show_a-b={x} />',
+  'const f = async (load) => <A data={await load()}>{children()}</A>;', 'let x; const g = async (p) => (x = <A>{x}</A>, await p);', 'const h = async () => <A>{await mk()}</A>;', 'const o = { async m() { return <A>{f()}</A>; }, *gen() { yield <A>{g()}</A>; }, async *ag() { yield <A>{await f()}</A>; } };',
+  '`${renderToString(<div />)}`;', 'const t = <div title={`${items.map((i) => <li>{i}</li>).length} rows`} />;', 'tag`a${<A>{f()}</A>}b`;',
   '<A v-foo:a-b={x} />', '<A v-foo:1={x} />', '<div data-a-b-c="1" aria-x />', '<div a.b="1" />'.replace('a.b', 'ab'),
 ];
 
 // TSX modules with legal-but-odd forms on the resolveType path
 export const ODD_TSX = [
+  'import { defineComponent } from "vue";\nexport const C = defineComponent(...[() => () => <div />]);',
+  'import { defineComponent } from "vue";\nconst rest: any[] = [];\nexport const C = defineComponent((props: { a?: string }) => () => <i>{props.a}</i>, ...rest);',
+  'import { defineComponent } from "vue";\nexport const C = defineComponent(...[(props: {}) => () => <A>{f()}</A>, { name: "X" }] as const);',
+  'const render = async <T,>(row: T): Promise<object> => <Cell>{format(row)}</Cell>;',
+  'const pick = <T extends object>(row: T): object => <Cell key={1}>{row}</Cell>;\nlet x: object = 1 as any;\nconst again = (n: number): object => (x = <A>{x}</A>);',
+  'class Svc { render = async (load: () => Promise<object>): Promise<object> => <A data={await load()}>{children()}</A>; }',
+
   'import { defineComponent } from "vue";\nexport const C = defineComponent((props: { icon?: object } = { icon: <i /> }) => () => <b />);',
   'import { defineComponent } from "vue";\nexport const C = defineComponent(function (props: { icon?: object; f?: object } = { icon: <i>{x}</i>, get f() { return <></>; } }) { return () => null; });',
   'import { defineComponent } from "vue";\nconst d = { icon: 1 };\nexport const C = defineComponent((props: { icon?: object } = { ...d, icon: <A>{f()}</A> }) => () => null);',
